@@ -48,6 +48,19 @@ func addMethods[R any](obj *schemabuilder.Object, name, kind string, mk func(id 
 		}
 		return out
 	}, schemabuilder.NonNullable)
+	if kind == "ptr" {
+		// a batch func that promised NonNullable and breaks the promise for some objects (an
+		// explicit typed nil under a key that is present): thunder has to fail the query; it
+		// must not answer null under the NON_NULL type it advertises
+		obj.BatchFieldFunc("bnn_"+name, func(in map[batch.Index]*Shapes) map[batch.Index]R {
+			out := map[batch.Index]R{}
+			for i, s := range in {
+				v, _ := mk(s.Id) // nil for odd ids
+				out[i] = v
+			}
+			return out
+		}, schemabuilder.NonNullable)
+	}
 	// with a fallback the two advertised types must agree: value kinds need NonNullable for
 	// that (and then report every index), pointers and lists do not
 	var opts []schemabuilder.FieldFuncOption
